@@ -36,7 +36,7 @@ attribute [epsic] Pauli.convertHC Pauli.convertUC Pauli.convertHR Pauli.convertU
 attribute [epsic] Cx.add_re Cx.add_im Cx.sub_re Cx.sub_im Cx.mul_re Cx.mul_im Cx.neg_re Cx.neg_im
   Cx.conj_re Cx.conj_im Cx.ci_re Cx.ci_im Cx.smul_re Cx.smul_im Cx.ofReal_re Cx.ofReal_im
   Cx.ciReal_re Cx.ciReal_im Cx.zero_re Cx.zero_im Cx.one_re Cx.one_im Cx.two_re Cx.two_im
-  Cx.half_re Cx.half_im Cx.norm_def Cx.mk_re Cx.mk_im Cx.divRaw_re Cx.divRaw_im
+  Cx.half_re Cx.half_im Cx.mk_re Cx.mk_im Cx.divRaw_re Cx.divRaw_im
   zero_eq one_eq two_eq half_eq
 
 end Epsic
